@@ -352,7 +352,8 @@ def run(ctx):
                 "match, earliest rule on ties) and with the Lean model lexer. parser: every token sequence of up to "
                 "5 (quick) / 7 (thorough) tokens, capped at 4000 / 60000 sequences, over the whole 61-token vocabulary reachable as an "
                 "extension of a viable prefix, random sentences derived from the grammar's parser rules of growing "
-                "size, and single-token deletions / insertions / substitutions / swaps of those; the verdict of the "
+                "size, single-token deletions / insertions / substitutions / swaps of those, and expressions nested 30 / 100 / 150 (250) "
+                "levels deep through brackets, signs, powers, function calls and array indices; the verdict of the "
                 "shipped blackbirdParser fed the token sequence directly is compared with an Earley recogniser over "
                 "the grammar. extraction: the serialised ATNs the translator reads are what the modules hand to the "
                 "ANTLR runtime. non-trivial = lexer input with at least 2 tokens or parser input with at least 3 "
@@ -429,6 +430,14 @@ def run(ctx):
                 seqs.append(("substitute", s[:p] + [ctx.rng.choice(terminals)] + s[p + 1:]))
             elif p + 1 < n:
                 seqs.append(("swap", s[:p] + [s[p + 1], s[p]] + s[p + 2:]))
+    # deep nesting: the grammar has no bound on it (150 levels is far inside what the interpreter's stack allows)
+    head = ["PROGNAME", "NAME", "NEWLINE", "VERSION", "FLOAT", "NEWLINE", "NAME", "LBRAC"]
+    for d in (30, 100, ctx.n(150, 250)):
+        for mid in (["LBRAC"] * d + ["INT"] + ["RBRAC"] * d, ["MINUS"] * d + ["INT"], ["INT", "PWR"] * d + ["INT"],
+                    ["SIN", "LBRAC"] * d + ["INT"] + ["RBRAC"] * d,
+                    ["NAME", "LSQBRAC"] * d + ["INT"] + ["RSQBRAC"] * d):
+            seqs.append(("deep", head + mid + ["RBRAC", "APPLY", "INT"]))
+            seqs.append(("deep", head + mid + ["RBRAC", "APPLY"]))
     seen = set()
     nacc = 0
     for k, s in seqs:
